@@ -283,6 +283,9 @@ func genFrame(r *hx.Rand, max, _ int) codec.Frame {
 		if s < 1 {
 			s = r.Range(1, 3)
 		}
+		if s > 12*c+8 { // keep the packet count per OBU moderate (the model is cubic-free but not fast)
+			s = r.Range(1, 12*c+8)
+		}
 		if total+s > 24000 {
 			s = r.Range(1, 16)
 		}
